@@ -190,6 +190,18 @@ def c17_scenarios(r, tier):
                                         hline("hexecute", 1, p, A), hline("hexecute", 2, p, A), hline("hexecute", 3, p, A), hline("hcommit", 2, p, B), hline("hcommit", 1, p, A),
                                         hline("hcommit", 2, p, A), hline("hcommit", 3, p, A), hline("habort", 2, p, B), hline("habort", 3, p, B), hline("habort", 3, p, B),
                                         "holds %s" % hx(A), "holds %s" % hx(B)]))
+    # staggered expiry: the first name runs out of time while the second, started later on the same instance, is
+    # still inside its own timeout; whatever then touches the expired name must leave the other one alone
+    for k in range(3 if tier != "thorough" else 12):
+        rr = r.fork()
+        i = rr.choice(ids)
+        X, Y = (A, B) if rr.below(2) == 0 else (B, A)
+        touch = rr.choice(["hprepare", "hexecute", "hcommit", "habort", "hcontribute"])
+        tl = hline(touch, i, p, X, t, ids) if touch == "hprepare" else hline(touch, i, p, X)
+        probe = rr.choice([[hline("hprepare", i, p, Y, t, ids), hline("habort", i, p, Y)], [hline("habort", i, p, Y), hline("habort", i, p, Y)],
+                           [hline("hcommit", i, p, Y), hline("hprepare", i, p, Y, t, ids)]])
+        T.append(("staggered-expiry-%d" % k, [hline("hprepare", i, p, X, t, ids), "sleep 1500", hline("hprepare", i, p, Y, t, ids), "sleep 2000", tl] + probe +
+                  ["sleep 1600", hline("habort", i, p, Y), hline("habort", i, p, X), "holds %s" % hx(A), "holds %s" % hx(B)]))
     ids4 = [1, 2, 3, 5]
     q = "signer-test01"
     T.append(("unlisted-contributor", "ids4", [hline("hprepare", 3, q, A, 2, [1, 3, 5]), hline("hprepare", 1, q, A, 2, [1, 3, 5]), hline("hprepare", 5, q, A, 2, [1, 3, 5]),
@@ -306,7 +318,9 @@ def c14_scenarios(r, tier):
             i1, i2 = [], []
             for which, i, d in events:
                 (i1 if which == 1 else i2).append(len(lines))
-                lines.append("%s %d %s %s" % (d[0], i, hx(acct), d[1]))
+                # attestations reach an instance through either endpoint (single, or a batch of one)
+                opn = "iatts" if d[0] == "iatt" and r.chance(0.5) else d[0]
+                lines.append("%s %d %s %s" % (opn, i, hx(acct), d[1]))
             pairs.append((kind, d1, d2, i1, i2))
         out.append(("n=%d t=%d" % (n, t), n, t, acct, lines, pairs))
     return out
